@@ -230,7 +230,7 @@ func genReplayTest(prog *Prog, tr *TargetResult, r *OblResult) (src string, ok b
 		for j, c := range b.Clauses {
 			_ = j
 			if c.Kind == "ensures" {
-				fmt.Fprintf(&sb, "\tfunc() {\n\t\tdefer func() {\n\t\t\tif p := recover(); p != nil {\n\t\t\t\tfmt.Printf(\"GOVC-REPLAY %s panic=%%v\\n\", p)\n\t\t\t}\n\t\t}()\n", c.Name)
+				fmt.Fprintf(&sb, "\tfunc() {\n\t\tdefer func() {\n\t\t\tif p := recover(); p != nil {\n\t\t\t\tfmt.Printf(\"GOVC-REPLAY %s specpanic=%%v\\n\", p)\n\t\t\t}\n\t\t}()\n", c.Name)
 				fmt.Fprintf(&sb, "\t\tfmt.Printf(\"GOVC-REPLAY %s=%%v\\n\", %s(%s))\n\t}()\n", c.Name, c.Name, argList(callParams))
 			}
 		}
@@ -242,17 +242,22 @@ func genReplayTest(prog *Prog, tr *TargetResult, r *OblResult) (src string, ok b
 			}
 		}
 		resNames := b.ResultNames()
+		// results live outside the closures: a panic of the real function and a panic inside a
+		// (non-executable) spec clause must not be confused
+		for i, rn := range resNames {
+			fmt.Fprintf(&sb, "\tvar %s %s\n\t_ = %s\n", rn, types.TypeString(sig.Results().At(i).Type(), qual), rn)
+		}
+		sb.WriteString("\tcalled := false\n")
 		sb.WriteString("\tfunc() {\n\t\tdefer func() {\n\t\t\tif p := recover(); p != nil {\n\t\t\t\tfmt.Printf(\"GOVC-REPLAY panic=%v\\n\", p)\n\t\t\t}\n\t\t}()\n")
 		call := fmt.Sprintf("%s%s(%s)", callPrefix, b.Name, argList(callParams))
 		if len(resNames) > 0 {
-			fmt.Fprintf(&sb, "\t\t%s := %s\n", strings.Join(resNames, ", "), call)
-			for _, rn := range resNames {
-				fmt.Fprintf(&sb, "\t\t_ = %s\n", rn)
-			}
+			fmt.Fprintf(&sb, "\t\t%s = %s\n", strings.Join(resNames, ", "), call)
 			fmt.Fprintf(&sb, "\t\tfmt.Printf(\"GOVC-REPLAY results=%%+v\\n\", []interface{}{%s})\n", strings.Join(resNames, ", "))
 		} else {
 			fmt.Fprintf(&sb, "\t\t%s\n", call)
 		}
+		sb.WriteString("\t\tcalled = true\n\t}()\n")
+		sb.WriteString("\tif called {\n")
 		for _, c := range b.Clauses {
 			if c.Kind == "ensures" {
 				all := argList(callParams)
@@ -266,10 +271,11 @@ func genReplayTest(prog *Prog, tr *TargetResult, r *OblResult) (src string, ok b
 					fmt.Fprintf(&sb, "\t\tfmt.Printf(\"GOVC-REPLAY %s=skipped (uses old)\\n\")\n", c.Name)
 					continue
 				}
-				fmt.Fprintf(&sb, "\t\tfmt.Printf(\"GOVC-REPLAY %s=%%v\\n\", %s%s(%s))\n", c.Name, callPrefix, c.Name, all)
+				fmt.Fprintf(&sb, "\t\tfunc() {\n\t\t\tdefer func() {\n\t\t\t\tif p := recover(); p != nil {\n\t\t\t\t\tfmt.Printf(\"GOVC-REPLAY %s specpanic=%%v\\n\", p)\n\t\t\t\t}\n\t\t\t}()\n", c.Name)
+				fmt.Fprintf(&sb, "\t\t\tfmt.Printf(\"GOVC-REPLAY %s=%%v\\n\", %s%s(%s))\n\t\t}()\n", c.Name, callPrefix, c.Name, all)
 			}
 		}
-		sb.WriteString("\t}()\n")
+		sb.WriteString("\t}\n")
 	}
 	sb.WriteString("}\n")
 	return sb.String(), true, ""
@@ -345,7 +351,7 @@ func judgeReplay(out string, r *OblResult) (bool, string) {
 	}
 	kind := r.Obl.Kind
 	if strings.HasPrefix(kind, "safety") {
-		if strings.Contains(out, "GOVC-REPLAY panic=") || strings.Contains(out, "panic=") {
+		if strings.Contains(out, "GOVC-REPLAY panic=") {
 			return true, "the real function panics on this input"
 		}
 		return false, "no panic observed on the real code"
@@ -357,6 +363,9 @@ func judgeReplay(out string, r *OblResult) (bool, string) {
 		}
 		if strings.Contains(out, "GOVC-REPLAY panic=") {
 			return true, "the real function panics on this input"
+		}
+		if regexp.MustCompile(`GOVC-REPLAY \S*ens` + n + ` specpanic=`).MatchString(out) {
+			return false, "the violated clause is not executable (quantifier over an unbounded domain); no failing input could be confirmed"
 		}
 		if regexp.MustCompile(`GOVC-REPLAY \S*ens` + n + `=true`).MatchString(out) {
 			return false, "postcondition holds when executed (counterexample is spurious: a callee contract or abstraction is weaker than the code)"
@@ -386,7 +395,9 @@ func rerunReplay(root, path string) int {
 	}
 	out, _ := runReplayTest(root, rp.PkgDir, rp.Overlay, rp.TestSource)
 	fmt.Println(out)
-	if strings.Contains(out, "=false") || strings.Contains(out, "panic=") {
+	reproduced := strings.Contains(out, "GOVC-REPLAY requires=true") &&
+		(regexp.MustCompile(`GOVC-REPLAY \S*(ens|lemma)\S*=false`).MatchString(out) || strings.Contains(out, "GOVC-REPLAY panic="))
+	if reproduced {
 		fmt.Printf("VIOLATION property=%s replay=%s\n", rp.Property, path)
 		return 1
 	}
